@@ -136,7 +136,58 @@ def result_classes(repo, fn_name):
     return tests
 
 
+def numbered_references(ctx, repo):
+    """O-embed: the composites are built by pasting pattern TEXT into one another (_orjoin, %-splices), which renumbers groups.  A numbered
+    backreference or a conditional on a numbered group therefore means one thing in the family pattern and another in every composite
+    that embeds it.  Decided on CPython's sre parse tree of every folded pattern, before any automaton is built."""
+    import re._constants as _sc
+    import re._parser as _sp
+    from .. import fold as _fold
+    env, _f = repo.folded('athlib/codes.py')
+    n = 0
+    for name, v in sorted(env.items()):
+        if not isinstance(v, _fold.RegexConst):
+            continue
+        n += 1
+        try:
+            tree = _sp.parse(v.pattern)
+        except Exception:
+            continue
+
+        def walk(nodes):
+            for op, av in nodes:
+                if op is _sc.GROUPREF or op is _sc.GROUPREF_EXISTS:
+                    yield op, av
+                if op is _sc.SUBPATTERN:
+                    yield from walk(av[3])
+                elif op is _sc.BRANCH:
+                    for alt in av[1]:
+                        yield from walk(alt)
+                elif op in (_sc.MAX_REPEAT, _sc.MIN_REPEAT):
+                    yield from walk(av[2])
+                elif op is _sc.GROUPREF_EXISTS:
+                    pass
+                if op is _sc.GROUPREF_EXISTS:
+                    yield from walk(av[1])
+                    if av[2] is not None:
+                        yield from walk(av[2])
+        refs = list(walk(list(tree)))
+        if refs:
+            op, av = refs[0]
+            gid = av if op is _sc.GROUPREF else av[0]
+            ctx.finding('O-embed', 'athlib/codes.py::%s::numbered group reference' % name, 'athlib/codes.py', None,
+                        '%s refers to group %s by number (%s).  Its text is pasted into the composites, where the groups before it shift the '
+                        'numbering: there the reference points at another group, so the composite accepts strings that %s itself rejects (or the '
+                        'reverse) and is no longer the union of its parts' % (name, gid, 'conditional (?(n)...)' if op is _sc.GROUPREF_EXISTS else 'backreference', name),
+                        name)
+    ctx.count('patterns scanned for numbered group references', n)
+    if not any(f.rule == 'O-embed' for f in ctx.findings):
+        ctx.ok('O-embed', 'no pattern of codes.py refers to a group by number (%d patterns)' % n)
+
+
 def run(ctx, repo):
+    ctx.rule('O-embed', 'no pattern refers to a group by number (textual embedding renumbers groups)')
+    numbered_references(ctx, repo)
     P = Pats(repo)
     A = P.A
     ctx.explanation = (
